@@ -1018,14 +1018,14 @@ func init() {
 			"func applyChangedFields(list field.List, fields []field.Field) (field.List, int) {\n\tvar changed int\n\tfor _, f := range fields {\n\t\tprev := list.Get(f.Name())\n\t\tif !prev.Value().Equals(f.Value()) {\n\t\t\tlist = list.Set(f)\n\t\t\tchanged++\n\t\t}\n\t}\n\treturn list, changed\n}\n\n// FSET key id [XX] field value [field value...]\n"}},
 		Why: "the FSET fold extracted into a helper that folds into its parameter (batch 4, C01-m3)"})
 	mutant(&Mutant{Name: "monitor-helper-raw-arguments", Props: []string{"C17"}, File: fMonitor,
-		Old: "\tvar line []byte\n\tfor i, arg := range msg.Args {\n\t\tif i > 0 {\n\t\t\tline = append(line, ' ')\n\t\t}\n\t\tline = append(line, strconv.Quote(arg)...)\n\t}\n",
-		New: "\tline := appendMonitorArgs(nil, msg.Args)\n",
-		Edits: []Edit{{fMonitor, "func (s *Server) sendMonitor(", "func appendMonitorArgs(dst []byte, args []string) []byte {\n\tfor i, arg := range args {\n\t\tif i > 0 {\n\t\t\tdst = append(dst, ' ')\n\t\t}\n\t\tif i == 0 {\n\t\t\tdst = strconv.AppendQuote(dst, arg)\n\t\t} else {\n\t\t\tdst = append(dst, arg...)\n\t\t}\n\t}\n\treturn dst\n}\n\nfunc (s *Server) sendMonitor("}},
+		Old:    "\tvar line []byte\n\tfor i, arg := range msg.Args {\n\t\tif i > 0 {\n\t\t\tline = append(line, ' ')\n\t\t}\n\t\tline = append(line, strconv.Quote(arg)...)\n\t}\n",
+		New:    "\tline := appendMonitorArgs(nil, msg.Args)\n",
+		Edits:  []Edit{{fMonitor, "func (s *Server) sendMonitor(", "func appendMonitorArgs(dst []byte, args []string) []byte {\n\tfor i, arg := range args {\n\t\tif i > 0 {\n\t\t\tdst = append(dst, ' ')\n\t\t}\n\t\tif i == 0 {\n\t\t\tdst = strconv.AppendQuote(dst, arg)\n\t\t} else {\n\t\t\tdst = append(dst, arg...)\n\t\t}\n\t}\n\treturn dst\n}\n\nfunc (s *Server) sendMonitor("}},
 		Expect: "R17.resp-lines", Key: "sendMonitor→line", Why: "the MONITOR line is assembled by a helper that quotes only the command name: a CR LF in a later argument splits the line"})
 	mutant(&Mutant{Name: "lives-queue-helper-pops-from-the-end", Props: []string{"C07", "C05", "C10"}, File: fLive,
-		Old: "\t\t\titem := s.lstack[0]\n\t\t\ts.lstack = s.lstack[1:]\n\t\t\tif len(s.lstack) == 0 {\n\t\t\t\ts.lstack = nil\n\t\t\t}\n",
-		New: "\t\t\titem := s.popLive()\n",
-		Edits: []Edit{{fLive, "func writeLiveMessage(", "func (s *Server) popLive() *commandDetails {\n\titem := s.lstack[len(s.lstack)-1]\n\ts.lstack = s.lstack[:len(s.lstack)-1]\n\tif len(s.lstack) == 0 {\n\t\ts.lstack = nil\n\t}\n\treturn item\n}\n\nfunc writeLiveMessage("}},
+		Old:    "\t\t\titem := s.lstack[0]\n\t\t\ts.lstack = s.lstack[1:]\n\t\t\tif len(s.lstack) == 0 {\n\t\t\t\ts.lstack = nil\n\t\t\t}\n",
+		New:    "\t\t\titem := s.popLive()\n",
+		Edits:  []Edit{{fLive, "func writeLiveMessage(", "func (s *Server) popLive() *commandDetails {\n\titem := s.lstack[len(s.lstack)-1]\n\ts.lstack = s.lstack[:len(s.lstack)-1]\n\tif len(s.lstack) == 0 {\n\t\ts.lstack = nil\n\t}\n\treturn item\n}\n\nfunc writeLiveMessage("}},
 		Expect: "R7.log-order-delivery", Key: "queue/lstack", Why: "the pop of the pending-writes queue extracted into a helper that takes the newest entry"})
 	mutant(&Mutant{Name: "shrink-helper-renames-after-reopen", Props: []string{"C09"}, File: fShrink,
 		Old: "\t\t\tif err := os.Rename(s.opts.AppendFileName+\"-shrink\", s.opts.AppendFileName); err != nil {\n\t\t\t\tlog.Fatalf(\"shrink rename fatal operation: %v\", err)\n\t\t\t}\n",
@@ -1034,4 +1034,170 @@ func init() {
 			{fShrink, "\t\t\tvar n int64\n\t\t\tn, err = s.aof.Seek(0, 2)\n", "\t\t\ts.installShrunkenAOF()\n\t\t\tvar n int64\n\t\t\tn, err = s.aof.Seek(0, 2)\n"},
 			{fShrink, "func (s *Server) aofshrink() {", "func (s *Server) installShrunkenAOF() {\n\tif err := os.Rename(s.opts.AppendFileName+\"-shrink\", s.opts.AppendFileName); err != nil {\n\t\tlog.Fatalf(\"shrink rename fatal operation: %v\", err)\n\t}\n}\n\nfunc (s *Server) aofshrink() {"}},
 		Expect: "R9.swap-order", Key: "rename-shrink-to-live→reopen-live", Why: "the rename moved into a helper that is called after the live log was reopened: the server appends to the old file, which the rename then replaces"})
+}
+
+func init() {
+	// ---- R5.detect-table ------------------------------------------------------------------------------------
+	const fFence = "internal/server/fence.go"
+	mutant(&Mutant{Name: "detect-fallback-forgets-cross", Props: []string{"C05"}, File: fFence,
+		Old:    "\t\t\tif detect == \"exit\" || detect == \"cross\" {\n\t\t\t\tdetect = \"outside\"\n\t\t\t\tcontinue\n\t\t\t}",
+		New:    "\t\t\tif detect == \"exit\" {\n\t\t\t\tdetect = \"outside\"\n\t\t\t\tcontinue\n\t\t\t}",
+		Expect: "R5.detect-table", Key: "set/outside→outside crossing", Why: "a fence with DETECT outside no longer reports 'outside' for an object that crosses the area"})
+	mutant(&Mutant{Name: "detect-cross-without-outside", Props: []string{"C05"}, File: fFence,
+		Old:    "\tcase \"exit\", \"cross\":\n\t\tif fence.detect == nil || fence.detect[\"outside\"] {",
+		New:    "\tcase \"exit\":\n\t\tif fence.detect == nil || fence.detect[\"outside\"] {",
+		Expect: "R5.detect-table", Key: "set/outside→outside crossing", Why: "'cross' is no longer followed by 'outside'"})
+	mutant(&Mutant{Name: "detect-enter-inside-guard-swapped", Props: []string{"C05"}, File: fFence,
+		Old:    "\tcase \"enter\":\n\t\tif fence.detect == nil || fence.detect[\"inside\"] {",
+		New:    "\tcase \"enter\":\n\t\tif fence.detect == nil || fence.detect[\"enter\"] {",
+		Expect: "R5.detect-table", Key: "set/outside→inside", Why: "with DETECT enter the follow-up 'inside' is sent although it was not asked for, and with DETECT enter,inside… the guard tests the wrong member"})
+	mutant(&Mutant{Name: "detect-fset-may-cross", Props: []string{"C05"}, File: fFence,
+		Old:    "\t\t\t\tif details.command != \"fset\" {\n\t\t\t\t\t// For cross detection",
+		New:    "\t\t\t\tif details.command != \"\" {\n\t\t\t\t\t// For cross detection",
+		Expect: "R5.detect-table", Key: "fset/outside→outside", Why: "an FSET (which does not move the object) is classified as crossing"})
+	mutant(&Mutant{Name: "detect-exit-when-both-match", Props: []string{"C05"}, File: fFence,
+		Old:    "\t\t\tif match1 && match2 {\n\t\t\t\tdetect = \"inside\"",
+		New:    "\t\t\tif match1 && match2 && details.old.Geo().Center() == details.obj.Geo().Center() {\n\t\t\t\tdetect = \"inside\"",
+		Expect: "R5.detect-table", Key: "set/inside→", Why: "an extra, unforeseen condition in the classification"})
+	mutant(&Mutant{Name: "neutral-detect-classification-as-switch", Props: []string{"C05"}, File: fFence, Neutral: true,
+		Old:   "\t\t\tif match1 && match2 {\n\t\t\t\tdetect = \"inside\"\n\t\t\t} else if match1 && !match2 {\n\t\t\t\tdetect = \"exit\"\n\t\t\t} else if !match1 && match2 {\n\t\t\t\tdetect = \"enter\"\n\t\t\t\tif details.command == \"fset\" {\n\t\t\t\t\tdetect = \"inside\"\n\t\t\t\t}\n\t\t\t} else {",
+		New:   "\t\t\twasIn, isIn := match1, match2\n\t\t\tswitch {\n\t\t\tcase wasIn && isIn:\n\t\t\t\tdetect = \"inside\"\n\t\t\tcase wasIn:\n\t\t\t\tdetect = \"exit\"\n\t\t\tcase isIn && details.command == \"fset\":\n\t\t\t\tdetect = \"inside\"\n\t\t\tcase isIn:\n\t\t\t\tdetect = \"enter\"\n\t\t\tdefault:",
+		Edits: []Edit{{fFence, "\t\t\t\t\t\tif temp {\n\t\t\t\t\t\t\tfence.cmd = \"within\"\n\t\t\t\t\t\t}\n\t\t\t\t\t}\n\t\t\t\t}\n\t\t\t}\n", "\t\t\t\t\t\tif temp {\n\t\t\t\t\t\t\tfence.cmd = \"within\"\n\t\t\t\t\t\t}\n\t\t\t\t\t}\n\t\t\t\t}\n\t\t\t}\n"}},
+		Why:   "the classification written as a tagless switch over renamed locals"})
+}
+
+func init() {
+	// ---- R6.size-tracks-file / R4.loader-entry (after the fourth seeding round) ---------------------------------
+	mutant(&Mutant{Name: "reset-leaves-size-to-the-loader", Props: []string{"C06"}, File: fServer,
+		Old:    "func (s *Server) reset() {\n\ts.aofsz = 0\n",
+		New:    "func (s *Server) reset() {\n",
+		Edits:  []Edit{{fAOF, "func (s *Server) loadAOF() (err error) {\n", "func (s *Server) loadAOF() (err error) {\n\ts.aofsz = 0\n"}},
+		Expect: "R6.size-tracks-file", Key: "settled-after-open/server.(*Server).followStartOver", Why: "the seeded change C06d: the start-over path recreates the log empty but keeps the size of the previous log, so the caught-up test fires early"})
+	mutant(&Mutant{Name: "reset-keeps-size", Props: []string{"C04", "C06"}, File: fServer,
+		Old:    "func (s *Server) reset() {\n\ts.aofsz = 0\n",
+		New:    "func (s *Server) reset() {\n",
+		Expect: "R4.loader-entry", Key: "loader-entry/server.(*Server).followCheckSome", Why: "the reload after a truncation counts on top of the old size"})
+	mutant(&Mutant{Name: "neutral-loader-zeroes-size-itself", Props: []string{"C04", "C06"}, File: fAOF, Neutral: true,
+		Old: "func (s *Server) loadAOF() (err error) {\n",
+		New: "func (s *Server) loadAOF() (err error) {\n\ts.aofsz = 0\n",
+		Why: "the loader sets its own starting point (and reset() still zeroes the field)"})
+	mutant(&Mutant{Name: "startover-without-reset-of-size", Props: []string{"C06"}, File: "internal/server/checksum.go",
+		Old:    "\ts.reset()\n\treturn 0, nil\n}",
+		New:    "\ts.cols.Clear()\n\treturn 0, nil\n}",
+		Expect: "R6.size-tracks-file", Key: "settled-after-open/server.(*Server).followStartOver", Why: "the start-over path empties the keyspace by hand and forgets the size"})
+}
+
+func init() {
+	// ---- R2.exact-filter/complete (after the fourth seeding round) --------------------------------------------
+	mutant(&Mutant{Name: "within-box-prefilter-before-exact-test", Props: []string{"C02"}, File: fColl,
+		Old:    "\t\tif o.Geo().Within(obj) {\n\t\t\treturn iter(o)\n\t\t}\n\t\treturn true\n\t})",
+		New:    "\t\tif o.Rect().Max.X < obj.Rect().Max.X && o.Geo().Within(obj) {\n\t\t\treturn iter(o)\n\t\t}\n\t\treturn true\n\t})",
+		Expect: "R2.exact-filter", Key: "Within/branch2/complete", Why: "a cheap reject in front of the exact test drops objects that touch the query's edge (the seeded change C02d did it with the float32 index box)"})
+	mutant(&Mutant{Name: "neutral-within-guard-inverted", Props: []string{"C02", "C11"}, File: fColl, Neutral: true,
+		Old: "\t\tif o.Geo().Within(obj) {\n\t\t\treturn iter(o)\n\t\t}\n\t\treturn true\n\t})",
+		New: "\t\tif !o.Geo().Within(obj) {\n\t\t\treturn true\n\t\t}\n\t\treturn iter(o)\n\t})",
+		Why: "the exact test written as an early return"})
+}
+
+func init() {
+	// ---- fourth seeding round: log handle aliases, positional resume cursors -----------------------------------
+	mutant(&Mutant{Name: "prewrite-writes-log-outside-lock", Props: []string{"C07"}, File: fServer,
+		Old:    "\t\t\t\t\t\tfunc() {\n\t\t\t\t\t\t\t// prewrite\n\t\t\t\t\t\t\ts.mu.Lock()\n\t\t\t\t\t\t\tdefer s.mu.Unlock()\n\t\t\t\t\t\t\ts.flushAOF(false)\n\t\t\t\t\t\t\ts.aofdirty.Store(false)\n\t\t\t\t\t\t}()\n",
+		New:    "\t\t\t\t\t\ts.mu.Lock()\n\t\t\t\t\t\tpending, logf := s.aofbuf, s.aof\n\t\t\t\t\t\ts.aofbuf = nil\n\t\t\t\t\t\ts.aofdirty.Store(false)\n\t\t\t\t\t\ts.mu.Unlock()\n\t\t\t\t\t\tif len(pending) > 0 {\n\t\t\t\t\t\t\tlogf.Write(pending)\n\t\t\t\t\t\t}\n",
+		Expect: "R7.lock-write", Key: "Server.aof:logf.Write()", Why: "the seeded change C07d: the buffer is taken over under the lock but written to the file after the unlock, through a local that holds the handle; two connections' writes reach the file in either order"})
+	mutant(&Mutant{Name: "shrink-key-cursor-is-a-position", Props: []string{"C09"}, File: fShrink,
+		Old:    "\t\tvar nextkey string\n",
+		New:    "\t\tvar nextkey string\n\t\tvar nextpos int\n",
+		Edits:  []Edit{{fShrink, "\t\t\t\t\ts.cols.Ascend(nextkey,\n", "\t\t\t\t\tif k, _, ok := s.cols.GetAt(nextpos); ok && k < nextkey {\n\t\t\t\t\t\tnextpos++\n\t\t\t\t\t}\n\t\t\t\t\ts.cols.Ascend(nextkey,\n"}},
+		Expect: "R9.resume-cursor", Key: "positional/Server.cols.GetAt", Why: "a position in the keyspace is kept from one critical section of the rewrite to the next (the seeded change C09d resumed the batch scan with GetAt(position))"})
+}
+
+func init() {
+	// ---- R18.per-call-globals through a release helper (fourth seeding round) ----------------------------------
+	mutant(&Mutant{Name: "release-helper-forgets-keys", Props: []string{"C18"}, File: fScripts,
+		Old: "\tdefer s.luapool.Put(luaState)\n\tluaDeadline := lua.LNil\n",
+		New: "\tdefer s.luapool.Release(luaState)\n\tluaDeadline := lua.LNil\n",
+		Edits: []Edit{
+			{fScripts, "func (pl *lStatePool) Shutdown() {", "func (pl *lStatePool) Release(L *lua.LState) {\n\tluaSetEvalCmd(L, lua.LNil)\n\tluaSetRawGlobals(\n\t\tL, map[string]lua.LValue{\n\t\t\t\"ARGV\":     lua.LNil,\n\t\t\t\"DEADLINE\": lua.LNil,\n\t\t})\n\tpl.Put(L)\n}\n\nfunc (pl *lStatePool) Shutdown() {"},
+			{fScripts, "\tdefer luaSetEvalCmd(luaState, lua.LNil)\n\tdefer luaSetRawGlobals(\n\t\tluaState, map[string]lua.LValue{\n\t\t\t\"KEYS\":     lua.LNil,\n\t\t\t\"ARGV\":     lua.LNil,\n\t\t\t\"DEADLINE\": lua.LNil,\n\t\t})\n", ""}},
+		Expect: "R18.per-call-globals", Key: "cmdEvalUnified→set{KEYS,ARGV,DEADLINE}", Why: "the seeded change C18d: the reset moved into a release helper that forgets KEYS; a later WHEREEVAL script reads the previous call's keys"})
+	mutant(&Mutant{Name: "neutral-release-helper-resets-everything", Props: []string{"C18", "C16"}, File: fScripts, Neutral: true,
+		Old: "\tdefer s.luapool.Put(luaState)\n\tluaDeadline := lua.LNil\n",
+		New: "\tdefer s.luapool.Release(luaState)\n\tluaDeadline := lua.LNil\n",
+		Edits: []Edit{
+			{fScripts, "func (pl *lStatePool) Shutdown() {", "func (pl *lStatePool) Release(L *lua.LState) {\n\tluaSetEvalCmd(L, lua.LNil)\n\tluaSetRawGlobals(\n\t\tL, map[string]lua.LValue{\n\t\t\t\"KEYS\":     lua.LNil,\n\t\t\t\"ARGV\":     lua.LNil,\n\t\t\t\"DEADLINE\": lua.LNil,\n\t\t})\n\tpl.Put(L)\n}\n\nfunc (pl *lStatePool) Shutdown() {"},
+			{fScripts, "\tdefer luaSetEvalCmd(luaState, lua.LNil)\n\tdefer luaSetRawGlobals(\n\t\tluaState, map[string]lua.LValue{\n\t\t\t\"KEYS\":     lua.LNil,\n\t\t\t\"ARGV\":     lua.LNil,\n\t\t\t\"DEADLINE\": lua.LNil,\n\t\t})\n", ""}},
+		Why: "the same refactoring done right: the release helper resets all three globals and the eval command before the hand-back"})
+}
+
+func init() {
+	// ---- fourth seeding round: C19d, C20d -----------------------------------------------------------------------
+	mutant(&Mutant{Name: "get-hides-unswept-expired-object", Props: []string{"C19", "C01"}, File: fCrud,
+		Old:    "\to := col.Get(id)\n\tif o == nil {\n\t\tif msg.OutputType == RESP {\n\t\t\treturn resp.NullValue(), nil\n\t\t}",
+		New:    "\to := col.Get(id)\n\tif o == nil || (o.Expires() != 0 && start.UnixNano() >= o.Expires()) {\n\t\tif msg.OutputType == RESP {\n\t\t\treturn resp.NullValue(), nil\n\t\t}",
+		Expect: "R14.visibility-by-sweeper-only", Key: "cmdGET→if", Why: "the seeded change C19d: GET answers 'not found' for an object whose deadline has passed while SCAN, COUNT and STATS still hold it until the sweep"})
+	mutant(&Mutant{Name: "fence-reads-cached-collection", Props: []string{"C20", "C05"}, File: "internal/server/fence.go",
+		Old:    "\tif details.command == \"fset\" {\n\t\tnofields := sw.nofields\n",
+		New:    "\tif sw.col != nil && sw.col.Count() == 0 {\n\t\treturn nil\n\t}\n\tif details.command == \"fset\" {\n\t\tnofields := sw.nofields\n",
+		Expect: "R20.no-cached-collection", Key: "fenceMatch→sw.col", Why: "fence evaluation consults the collection pointer stored when the fence was created (the seeded change C20d searched it for roaming neighbours): stale after DROP / RENAME / last DEL"})
+}
+
+func init() {
+	// ---- R14.sweep-stop after the fourth seeding round ----------------------------------------------------------
+	mutant(&Mutant{Name: "sweep-walk-stopped-by-one-collection", Props: []string{"C14"}, File: fExpire,
+		Old: "\t\tcol.ScanExpires(func(o *object.Object) bool {\n",
+		New: "\t\treturn col.ScanExpires(func(o *object.Object) bool {\n",
+		Edits: []Edit{
+			{fExpire, "\t\t\tmsgs = append(msgs, &Message{Args: []string{\"del\", key, o.ID()}})\n\t\t\treturn true\n\t\t})\n\t\treturn true\n\t})", "\t\t\tmsgs = append(msgs, &Message{Args: []string{\"del\", key, o.ID()}})\n\t\t\treturn true\n\t\t})\n\t})"},
+			{fColl, "func (c *Collection) ScanExpires(iter func(o *object.Object) bool) {\n\tc.expires.Scan(iter)\n}", "func (c *Collection) ScanExpires(iter func(o *object.Object) bool) bool {\n\tkeepon := true\n\tc.expires.Scan(func(o *object.Object) bool {\n\t\tkeepon = iter(o)\n\t\treturn keepon\n\t})\n\treturn keepon\n}"}},
+		Expect: "R14.sweep-stop", Key: "sweep-objects/walk-continues", Why: "the seeded change C14d: the per-collection stop at the first future deadline also ends the walk over the remaining collections"})
+	mutant(&Mutant{Name: "neutral-sweep-batch-cap", Props: []string{"C14", "C07"}, File: fExpire, Neutral: true,
+		Old: "\t\t\tif nano < o.Expires() {\n\t\t\t\treturn false\n\t\t\t}",
+		New: "\t\t\tif nano < o.Expires() || len(msgs) == 16384 {\n\t\t\t\treturn false\n\t\t\t}",
+		Why: "a cap on the number of deletions per sweep, as a second disjunct of the stop test (what is left is due again at the next sweep, 100 ms later)"})
+}
+
+func init() {
+	// ---- R17.marshal-total, R17.finite-floats, R17.lua-json: the reverse of the three repairs ---------------------
+	mutant(&Mutant{Name: "tryparsetype-accepts-nan", Props: []string{"C17"}, File: "internal/server/stats.go",
+		Old:    "err == nil && !math.IsNaN(v) && !math.IsInf(v, 0) {",
+		New:    "err == nil && !math.IsNaN(v) {",
+		Expect: "R17.marshal-total", Key: "dynamic-map-store/", Why: "reverse of fix 297e8ed (half of it): CLIENT SETNAME inf, CLIENT LIST in JSON mode replies {\"ok\":true,\"list\":,…}"})
+	mutant(&Mutant{Name: "parsefloat-accepts-nan", Props: []string{"C17"}, File: fCrud,
+		Old:    "\tif err == nil && (math.IsNaN(v) || math.IsInf(v, 0)) {\n\t\treturn 0, strconv.ErrSyntax\n\t}\n",
+		New:    "",
+		Expect: "R17.finite-floats", Key: "server.parseFloat→ParseFloat(s)", Why: "reverse of fix 7cffd02: SET k a POINT nan 2 is stored and every later JSON reply carries a bare NaN"})
+	mutant(&Mutant{Name: "set-point-parses-raw-float", Props: []string{"C17"}, File: fCrud,
+		Old:    "\t\t\ty, err := parseFloat(slat)\n",
+		New:    "\t\t\ty, err := strconv.ParseFloat(slat, 64)\n",
+		Expect: "R17.finite-floats", Key: "ParseFloat(slat", Why: "one coordinate parsed without the finite check"})
+	mutant(&Mutant{Name: "lua-number-printed-raw", Props: []string{"C17"}, File: fScripts,
+		Old:    "\t\tif f := float64(val.(lua.LNumber)); math.IsNaN(f) || math.IsInf(f, 0) {\n",
+		New:    "\t\tif f := float64(val.(lua.LNumber)); math.IsNaN(f) {\n",
+		Expect: "R17.lua-json", Key: "return/val.String()", Why: "reverse of fix 4ed98e5 (half): EVAL \"return 1/0\" 0 replies \"result\":+Inf"})
+	mutant(&Mutant{Name: "lua-object-key-raw", Props: []string{"C17"}, File: fScripts,
+		Old:    "\t\t\t\tif lk.Type() != lua.LTString {\n\t\t\t\t\tkey = jsonString(lk.String())\n\t\t\t\t}\n",
+		New:    "",
+		Expect: "R17.lua-json", Key: "object-key/key", Why: "reverse of fix 4ed98e5: a boolean or fractional table key is written unquoted"})
+}
+
+func init() {
+	// ---- fourth seeding round: C05d, C12d, C16d, C17d ------------------------------------------------------------
+	mutant(&Mutant{Name: "live-buffer-batch-keeps-grown-array", Props: []string{"C05", "C10", "C07"}, File: fLive,
+		Old:    "\t\t\tdetails := lb.details[0]\n\t\t\tlb.details = lb.details[1:]\n\t\t\tif len(lb.details) == 0 {\n\t\t\t\tlb.details = nil\n\t\t\t}\n",
+		New:    "\t\t\tpending := lb.details\n\t\t\tif cap(lb.details) > 64 {\n\t\t\t\tlb.details = lb.details[:0]\n\t\t\t} else {\n\t\t\t\tlb.details = nil\n\t\t\t}\n\t\t\tdetails := pending[0]\n\t\t\tif len(pending) > 1 {\n\t\t\t\tlb.details = append(lb.details, pending[1:]...)\n\t\t\t}\n",
+		Expect: "R10.batch-not-aliased", Key: "goLive→liveBuffer.details", Why: "the seeded change C05d in small: the pending batch is taken into a local and the queue keeps the same backing array on one arm of an if"})
+	mutant(&Mutant{Name: "field-lookup-exits-on-root-name", Props: []string{"C12", "C01"}, File: "internal/field/list_binary.go",
+		Old:    "\t\t} else {\n\t\t\tif name < fname {\n\t\t\t\tbreak\n\t\t\t}\n\t\t\tif fname == name {",
+		New:    "\t\t} else {\n\t\t\tif isj && jname < fname {\n\t\t\t\tbreak\n\t\t\t}\n\t\t\tif !isj && name < fname {\n\t\t\t\tbreak\n\t\t\t}\n\t\t\tif fname == name {",
+		Expect: "R12.sorted-lookup-consistent", Key: "Get/", Why: "the seeded change C12d in small: the early exit of the sorted scan is taken on the part of the name before the dot, the match on the full name"})
+	mutant(&Mutant{Name: "connection-buffer-one-byte-larger", Props: []string{"C16"}, File: fServer,
+		Old:    "\t\t\tpacket := make([]byte, 0xFFFF)\n",
+		New:    "\t\t\tpacket := make([]byte, 64*1024)\n",
+		Expect: "R16.buffer-agreement", Key: "capacities", Why: "the seeded change C16d: a full read leaves one byte that the pipeline reader's single Read cannot take"})
+	mutant(&Mutant{Name: "stats-map-hoisted-out-of-loop", Props: []string{"C17"}, File: "internal/server/stats.go",
+		Old:    "\t\tif col != nil {\n\t\t\tm := make(map[string]interface{})\n\t\t\tm[\"num_points\"] = col.PointCount()",
+		New:    "\t\tif col != nil {\n\t\t\tm[\"num_points\"] = col.PointCount()",
+		Edits:  []Edit{{"internal/server/stats.go", "\tvar ms = []map[string]interface{}{}\n", "\tvar ms = []map[string]interface{}{}\n\tm := make(map[string]interface{}, 4)\n"}},
+		Expect: "R17.no-shared-element", Key: "cmdSTATS→append(ms, m)", Why: "the seeded change C17d: every element of the JSON list is the same map"})
 }
